@@ -1237,6 +1237,9 @@ impl<'a, 'b, W: Write> Serializer for &'a mut YamlSerializer<'b, W> {
 
     fn serialize_none(self) -> Result<()> {
         self.write_space_if_pending()?;
+        // A shared `None` payload is a node like any other: its anchor goes here, not on the
+        // next node that happens to be written.
+        self.write_scalar_prefix_if_anchor()?;
         self.last_value_was_block = false;
         if self.at_line_start {
             self.write_indent(self.depth)?;
@@ -1252,6 +1255,7 @@ impl<'a, 'b, W: Write> Serializer for &'a mut YamlSerializer<'b, W> {
 
     fn serialize_unit(self) -> Result<()> {
         self.write_space_if_pending()?;
+        self.write_scalar_prefix_if_anchor()?;
         self.last_value_was_block = false;
         if self.at_line_start {
             self.write_indent(self.depth)?;
